@@ -381,7 +381,9 @@ func (s *Solver) DischargeAll(x *Exec, obls []*Obl, par int) []*OblResult {
 	sizes := map[*Obl]int{}
 	for _, o := range obls {
 		if !o.ExpectSat && o.Goal.IsConst && o.Goal.BoolVal {
+			mu.Lock()
 			results[o] = &SolveResult{Status: "unsat", Backend: "syntactic"}
+			mu.Unlock()
 			continue
 		}
 		sc := x.script(o, o.Inputs)
